@@ -45,7 +45,7 @@ func (*Options).populateResolver
   props C16 C08
   requires o != nil && c != nil && CtxDef(c, "maxdepth") != 0
   modifies o.ResolverConfig
-  ensures @maxdepth o.ResolverConfig.MaxDepth == (if CtxIsSet(c, "maxdepth") || old(o.ResolverConfig.MaxDepth) == 0 then IntOfStr(CtxString(c, "maxdepth")) else old(o.ResolverConfig.MaxDepth))
+  ensures @maxdepth [C16 C11] o.ResolverConfig.MaxDepth == (if CtxIsSet(c, "maxdepth") || old(o.ResolverConfig.MaxDepth) == 0 then IntOfStr(CtxString(c, "maxdepth")) else old(o.ResolverConfig.MaxDepth))
 
 // ---------------------------------------------------------------------------------------------
 // Period flags (C06) and presentation flags (C15) may be given at any level of the command line.
@@ -153,7 +153,7 @@ func (*Options).Load returns (err)
   ensures @no-database [C16] err == nil && CtxIsSet(c, "no-database") ==> o.GlobalConfig.DbFileName == ""
   ensures @logfile [C16] err == nil ==> o.GlobalConfig.LogFileName == Prec(CtxIsSet(c, "logfile"), CtxString(c, "logfile"), loaded && CfgHas(cfgRd, 2), CfgStr(cfgRd, 2), "log.yaml")
   ensures @date-format [C16] err == nil ==> o.GlobalConfig.DateFormat == Prec(CtxIsSet(c, "date-format"), CtxString(c, "date-format"), loaded && CfgHas(cfgRd, 3), CfgStr(cfgRd, 3), "2006/01/02")
-  ensures @maxdepth [C16] err == nil ==> o.ResolverConfig.MaxDepth == (if CtxIsSet(c, "maxdepth") then IntOfStr(CtxString(c, "maxdepth")) else (if loaded && CfgHas(cfgRd, 5) && CfgInt(cfgRd, 5) != 0 then CfgInt(cfgRd, 5) else 10))
+  ensures @maxdepth [C16 C11] err == nil ==> o.ResolverConfig.MaxDepth == (if CtxIsSet(c, "maxdepth") then IntOfStr(CtxString(c, "maxdepth")) else (if loaded && CfgHas(cfgRd, 5) && CfgInt(cfgRd, 5) != 0 then CfgInt(cfgRd, 5) else 10))
   ensures @today [C16] err == nil ==> o.GlobalConfig.Now == (if CtxIsSet(c, "today") then ParseTimeVal(o.GlobalConfig.DateFormat, CtxString(c, "today")) else (if loaded && CfgHas(cfgRd, 4) then CfgTime(cfgRd, 4) else old(o.GlobalConfig.Now)))
   ensures @print-layout [C14] err == nil ==> o.ReporterConfig.DateFormat == o.GlobalConfig.DateFormat
   ensures @begin-innermost [C06] err == nil ==> PeriodBound(o.FilterConfig.BeginningTime, c, "begin", o.GlobalConfig.Now, o.GlobalConfig.DateFormat, LineageLen(c), old(o.FilterConfig.BeginningTime))
